@@ -71,12 +71,22 @@ func c14Txn(c *Ctx, r *Report, eng *effEngine, fn *ssa.Function, idem map[string
 		}
 		calls = append(calls, ci)
 	}
-	// saved loads: loads of recv.F in the entry block
-	for _, in := range fn.Blocks[0].Instrs {
-		if u, ok := in.(*ssa.UnOp); ok && u.Op == token.MUL {
-			if base, o, f, ok := loadOfField(u); ok && o == "Root" && base == ssa.Value(recv) {
-				if _, dup := sh.saved[f]; !dup {
-					sh.saved[f] = u
+	// saved loads: loads of recv.F that are executed before every transaction call
+	beforeTxn := func(in ssa.Instruction) bool {
+		for _, ci := range calls {
+			if !instrDominates(in, ci.(ssa.Instruction)) {
+				return false
+			}
+		}
+		return true
+	}
+	for _, b := range fn.DomPreorder() {
+		for _, in := range b.Instrs {
+			if u, ok := in.(*ssa.UnOp); ok && u.Op == token.MUL && beforeTxn(u) {
+				if base, o, f, ok := loadOfField(u); ok && o == "Root" && base == ssa.Value(recv) {
+					if _, dup := sh.saved[f]; !dup {
+						sh.saved[f] = u
+					}
 				}
 			}
 		}
@@ -93,7 +103,7 @@ func c14Txn(c *Ctx, r *Report, eng *effEngine, fn *ssa.Function, idem map[string
 				continue
 			}
 			o, f := fieldOwner(fa.X.Type(), fa.Field)
-			if o != "Root" || sh.saved[f] == nil || st.Val != sh.saved[f] {
+			if o != "Root" || sh.saved[f] == nil || resolveLocal(st.Val) != sh.saved[f] {
 				continue
 			}
 			gs := blockGuards(b)
@@ -147,21 +157,7 @@ func c14Txn(c *Ctx, r *Report, eng *effEngine, fn *ssa.Function, idem map[string
 		if !sh.restored[f] {
 			continue
 		}
-		okOrder := true
-		for _, ci := range calls {
-			if ci.Block() == fn.Blocks[0] {
-				// same block: position order
-				after := false
-				for _, in := range fn.Blocks[0].Instrs {
-					if in == ld.(ssa.Instruction) {
-						after = true
-					}
-					if in == ci.(ssa.Instruction) && !after {
-						okOrder = false
-					}
-				}
-			}
-		}
+		okOrder := beforeTxn(ld.(ssa.Instruction))
 		r.check("C14.W1", fmt.Sprintf("%s: Root.%s is saved before the first transaction call", fnName(fn), f), valPos(ld), okOrder, "the saved copy is taken after the transaction has started")
 	}
 	// fields of Root written inside the transaction
@@ -244,35 +240,31 @@ func c14Txn(c *Ctx, r *Report, eng *effEngine, fn *ssa.Function, idem map[string
 	for _, f := range []string{"types", "dirs"} {
 		ok := false
 		var pos token.Pos
-		for _, in := range fn.Blocks[0].Instrs {
-			st, isSt := in.(*ssa.Store)
-			if !isSt {
-				continue
-			}
-			fa, isFa := st.Addr.(*ssa.FieldAddr)
-			if !isFa || fa.X != ssa.Value(recv) {
-				continue
-			}
-			if o, ff := fieldOwner(fa.X.Type(), fa.Field); o != "Root" || ff != f {
-				continue
-			}
-			call, isCall := st.Val.(*ssa.Call)
-			if isCall && call.Call.StaticCallee() != nil && call.Call.StaticCallee().Name() == "dup" && len(call.Call.Args) == 1 && call.Call.Args[0] == sh.saved[f] {
-				// before every transaction call
-				before := true
-				seenStore := false
-				for _, in2 := range fn.Blocks[0].Instrs {
-					if in2 == ssa.Instruction(st) {
-						seenStore = true
-					}
+		for _, b := range fn.Blocks {
+			for _, in := range b.Instrs {
+				st, isSt := in.(*ssa.Store)
+				if !isSt {
+					continue
+				}
+				fa, isFa := st.Addr.(*ssa.FieldAddr)
+				if !isFa || fa.X != ssa.Value(recv) {
+					continue
+				}
+				if o, ff := fieldOwner(fa.X.Type(), fa.Field); o != "Root" || ff != f {
+					continue
+				}
+				call, isCall := resolveLocal(st.Val).(*ssa.Call)
+				if isCall && call.Call.StaticCallee() != nil && call.Call.StaticCallee().Name() == "dup" && len(call.Call.Args) == 1 && resolveLocal(call.Call.Args[0]) == sh.saved[f] {
+					// before every transaction call
+					before := true
 					for _, ci := range calls {
-						if ci.(ssa.Instruction) == in2 && !seenStore && ci != ssa.CallInstruction(call) {
+						if ci != ssa.CallInstruction(call) && !instrDominates(st, ci.(ssa.Instruction)) {
 							before = false
 						}
 					}
+					ok = before
+					pos = st.Pos()
 				}
-				ok = before
-				pos = st.Pos()
 			}
 		}
 		r.check("C14.W3", fmt.Sprintf("%s: Root.%s is replaced by a duplicate of the saved table before the transaction starts", fnName(fn), f), firstPos(pos, fn.Pos()), ok, "the transaction would write into the original table")
